@@ -16,7 +16,8 @@ VERIF = os.path.dirname(os.path.dirname(os.path.abspath(__file__)))
 def main():
     rnd = sys.argv[1]
     for prop in sys.argv[2:]:
-        src = "/tmp/seed%s/%s" % (rnd, prop)
+        # a round tag may carry a variant letter ("6a"): sources in /tmp/seed6/<PROP>/a/
+        src = "/tmp/seed%s/%s" % (rnd, prop) if rnd.isdigit() else "/tmp/seed%s/%s/%s" % (rnd[:-1], prop, rnd[-1])
         dst = os.path.join(VERIF, "seeded", "%s-r%s" % (prop, rnd))
         os.makedirs(dst, exist_ok=True)
         for f in ("patch.diff", "demo.py", "NOTES.md"):
@@ -36,7 +37,7 @@ def main():
         base = subprocess.run(["git", "-C", "/repo", "rev-parse", "--short", "HEAD"], capture_output=True, text=True).stdout.strip()
         files = sorted(set(re.findall(r"^\+\+\+ b/(\S+)", open(os.path.join(dst, "patch.diff")).read(), re.M)))
         meta.setdefault("property", prop)
-        meta.setdefault("round", int(rnd))
+        meta.setdefault("round", int(rnd) if rnd.isdigit() else int(rnd[:-1]))
         meta.setdefault("origin", "independent sub-agent given only the property text, one-paragraph descriptions of the earlier rounds' changes "
                                   "for this property (to force a different one) and a scratch worktree (no access to /verif)")
         meta.setdefault("summary", "see NOTES.md")
